@@ -59,7 +59,40 @@ func c17a(c *Ctx) {
 				for _, x := range b.Instrs {
 					switch y := x.(type) {
 					case *ssa.MapUpdate:
-						// inserting into a set/map: order-insensitive as long as keys are distinct or values equal
+						// inserting into a set/map is order-insensitive when the keys are distinct —
+						// the key is the key being ranged over — or when the values are equal (a
+						// constant, or a value made outside the loop): a key computed from the
+						// element (lower-cased, truncated) can collide, and then the last one wins
+						keyIsRangeKey := false
+						if ex, isEx := y.Key.(*ssa.Extract); isEx && ex.Tuple == ssa.Value(next) && ex.Index == 1 {
+							keyIsRangeKey = true
+						}
+						valSame := false
+						switch v := y.Value.(type) {
+						case *ssa.Const:
+							valSame = true
+						case ssa.Instruction:
+							valSame = !body[v.Block()]
+						default:
+							valSame = true // parameters, globals
+						}
+						if st, isStruct := y.Value.Type().Underlying().(*types.Struct); isStruct && st.NumFields() == 0 {
+							valSame = true
+						}
+						if !keyIsRangeKey && !valSame {
+							bad = "enters " + c.term(fn, y.Value) + " under the computed key " + c.term(fn, y.Key) + " (two elements can share that key: which one stays depends on the iteration order)"
+						}
+					case *ssa.Return:
+						// leaving in the middle: which element triggers it first depends on the order,
+						// unless what is returned does not depend on the element at all
+						for _, res := range y.Results {
+							if ri, isI := res.(ssa.Instruction); isI && body[ri.Block()] {
+								if k, isC := res.(*ssa.Const); isC && k != nil {
+									continue
+								}
+								bad = "returns " + c.term(fn, res) + " from inside the loop (with several offending elements, which one is reported depends on the iteration order)"
+							}
+						}
 					case *ssa.Store:
 						root := rootValue(y.Addr)
 						if a, ok := root.(*ssa.Alloc); ok && (a.Comment == "varargs" || body[a.Block()]) {
@@ -87,6 +120,40 @@ func c17a(c *Ctx) {
 							bad = "calls " + n
 						}
 					}
+				}
+			}
+			// leaving the loop in the middle (the exit blocks of an early return are not part of the
+			// natural loop): what is returned there must not come from the element at hand
+			for b := range body {
+				for _, sc := range b.Succs {
+					if body[sc] || b == next.Block() {
+						continue
+					}
+					seenB := map[*ssa.BasicBlock]bool{}
+					var scan func(x *ssa.BasicBlock, depth int)
+					scan = func(x *ssa.BasicBlock, depth int) {
+						if seenB[x] || body[x] || depth > 4 {
+							return
+						}
+						seenB[x] = true
+						for _, in2 := range x.Instrs {
+							if ret, isRet := in2.(*ssa.Return); isRet {
+								for _, res := range ret.Results {
+									var leaves []ssa.Value
+									phiLeaves(res, map[ssa.Value]bool{}, &leaves)
+									for _, lf := range leaves {
+										if ri, isI := lf.(ssa.Instruction); isI && body[ri.Block()] {
+											bad = "is left early with " + c.term(fn, lf) + ", made from the element at hand, as the result (with several such elements, which one is reported depends on the iteration order)"
+										}
+									}
+								}
+							}
+						}
+						for _, y := range x.Succs {
+							scan(y, depth+1)
+						}
+					}
+					scan(sc, 0)
 				}
 			}
 			// values carried from one iteration to the next: only order-insensitive accumulations
@@ -292,7 +359,47 @@ func sortedBeforeUse(c *Ctx, fn *ssa.Function, s ssa.Value, body map[*ssa.BasicB
 	return true
 }
 
+// c17bThroughLoadedPointers: a pointer to a plain value (*int, *string, *bool) that was read out of
+// a data structure — a field of a configuration entry, a map value — is only read through. Writing
+// through it changes an object somebody else handed in (the command configuration is shared by
+// every compilation that uses it).
+func c17bThroughLoadedPointers(c *Ctx) {
+	n := 0
+	for _, fn := range c.W.Funcs {
+		if isTestFunc(c.W, fn) || len(fn.Blocks) == 0 {
+			continue
+		}
+		k := 0
+		instrs(fn, func(in ssa.Instruction) {
+			st, ok := in.(*ssa.Store)
+			if !ok {
+				return
+			}
+			pt, ok := st.Addr.Type().Underlying().(*types.Pointer)
+			if !ok {
+				return
+			}
+			if _, basic := pt.Elem().Underlying().(*types.Basic); !basic {
+				return
+			}
+			switch a := st.Addr.(type) {
+			case *ssa.Alloc, *ssa.FieldAddr, *ssa.IndexAddr, *ssa.Parameter, *ssa.Global, *ssa.FreeVar:
+				return
+			case *ssa.Call:
+				if strings.HasPrefix(calleeName(a), "flag.") {
+					return // judged by C17.h
+				}
+			}
+			n++
+			k++
+			c.Bad(fmt.Sprintf("%s/write-through-loaded-pointer#%d", c.W.FuncKey(fn), k), c.W.Pos(st.Pos()), c.W.FuncKey(fn)+" writes through "+pretty(c.term(fn, st.Addr))+", a pointer it read out of a data structure: the object belongs to whoever handed it in (a shared configuration), and the next compilation sees the change")
+		})
+	}
+	c.OK("write-through-loaded-pointer/scanned", "-", fmt.Sprintf("no store through a pointer to a plain value that was read out of a data structure (%d found)", n))
+}
+
 func c17b(c *Ctx) {
+	c17bThroughLoadedPointers(c)
 	n := 0
 	for _, fn := range c.W.Funcs {
 		if fn.Name() == "init" || strings.HasPrefix(fn.Name(), "init#") || isTestFunc(c.W, fn) {
